@@ -3,7 +3,7 @@ import numpy as np
 from .. import scenes, obs, oracles
 
 ID, NUM, LEVEL = 'C17', 17, 'exploration'
-RULE = ('Evaluation = one call of the real icao.significant_cloud on one okta sequence, compared with an '
+RULE = ('(Short sequences are also given as tuple / ndarray / Series / deque and as one-shot iterators - a TypeError for the latter is not judged; one family is repeated in a worker under python -O.) ' 'Evaluation = one call of the real icao.significant_cloud on one okta sequence, compared with an '
         'independent fold (flag iff fewer than three flags so far and okta >= 1/3/5 for the 1st/2nd/3rd flag), '
         'length preserved, and flags of the sequence minus its last element equal to the flags of the parent '
         'sequence (tree walk, so every sequence is compared with its prefix). Workload: ALL sequences over okta '
@@ -151,7 +151,12 @@ def check(desc):
                     for shape, mk in (('tuple', tuple), ('ndarray', np.array), ('Series', pd.Series), ('deque', collections.deque),
                                       ('generator', lambda q: (v for v in q)), ('iter', iter), ('map', lambda q: map(int, q)),
                                       ('reversed', lambda q: reversed(q[::-1]))):
-                        g5 = f(mk(list(seq)))
+                        try:
+                            g5 = f(mk(list(seq)))
+                        except TypeError:
+                            if shape in ('generator', 'iter', 'map', 'reversed'):
+                                continue          # an implementation may insist on a sized sequence: not judged
+                            raise
                         n += 1
                         if not _judge(seq, g5, None, []) and len(viol) < 20:
                             oracles.V(viol, 'C17', 'flags depend on the container the oktas come in', container=shape, oktas=seq,
